@@ -51,7 +51,10 @@ def run(ctx):
     decs = [f.bodies[p] for p in reach if "::system::" in p and any(callee_is(t, "system_metric::current_load") for _, t in f.bodies[p].calls())]
     if not ctx.floor("C09.anchor", "system decision body (reads system_metric::current_load)", len(decs), 1):
         return
-    dec = decs[0]
+    # the BBR capacity test stays a call (it is judged on its own below); every other private helper of the decision is inlined
+    bbr_paths = [p for p in f.reach_bodies([decs[0].path]) if p != decs[0].path and "::system::" in p and f.bodies[p].ret_ty == "bool"
+                 and any(callee_def(t).endswith("max_avg") for _, t in f.view(f.bodies[p]).calls())]
+    dec = f.view(f.raw(decs[0]), keep=tuple(bbr_paths))
     enum = f.adts.get("core::system::rule::MetricType")
     variants = [v["name"] for v in enum["variants"]] if enum else []
     ok = sorted(variants) == sorted(ARMS)
@@ -63,7 +66,7 @@ def run(ctx):
     roles += [("threshold", ["field:Rule.threshold"], []), ("strategy", ["field:Rule.strategy"], []),
               ("BBR", ["variant:AdaptiveStrategy::BBR"], []), ("metric_type", ["field:Rule.metric_type"], [])]
     cls = make_classifier(roles)
-    bbr_bodies = [f.bodies[p] for p in f.reach_bodies([dec.path]) if p != dec.path and "::system::" in p and f.bodies[p].ret_ty == "bool"]
+    bbr_bodies = [f.view(f.bodies[p]) for p in bbr_paths]
 
     def opaque_name(t, atoms):
         if bbr_bodies and callee_is(t, bbr_bodies[0].path):
@@ -229,63 +232,84 @@ def bbr(ctx, f, b, cfg):
 
 
 def slot(ctx, f, chk, dec, cfg):
+    # view of the slot in which the per-rule decision stays ONE call (its inside is judged per arm above); loops, search closures and
+    # private wrappers around it are normalised
+    chk = f.view(f.raw(chk), keep=(dec.path,))
     sl = Slicer(f, chk)
-    cls = make_classifier([("traffic", ["call:ResourceWrapper::traffic_type"], []), ("Outbound", ["variant:TrafficType::Outbound"], []),
-                           ("passed", ["call:" + dec.path.rsplit("::", 1)[-1]], []), ("iter", ["call:Iterator::next"], [])])
+    tenum = f.adts.get("core::base::resource::TrafficType") or {}
+    tvars = [v["name"] for v in tenum.get("variants", [])]
+    base = make_classifier([("traffic", ["call:ResourceWrapper::traffic_type"], []), ("Outbound", ["variant:TrafficType::Outbound"], []),
+                            ("Inbound", ["variant:TrafficType::Inbound"], [])])
+
+    def cls(atoms, op=None):
+        if op is not None and discr_of_call(chk, op, "Iterator::next"):
+            return "iter"
+        if ("call:" + dec.path) in atoms and not any_atom(atoms, "call:Iterator::next") or ("call:" + dec.path) in atoms:
+            return "passed"
+        return base(atoms, op)
     rules_bbs = {bb for bb, t in chk.calls() if callee_is(t, "system::rule_manager::get_rules", "get_rules")}
     blocked_bbs = {bb for bb, t, vs, c in blocked_sites(f, chk)}
     if not ctx.floor("C09.outbound", "get_rules call in system slot", len(rules_bbs), 1):
         return
     w = D.Walker(f, chk, cls)
-    paths = w.walk(0, lambda bb, env: ("reads-rules",) if bb in rules_bbs else None)
+    paths = w.walk(0, lambda bb, env: ("blocked",) if bb in blocked_bbs else None)
 
     def outcome(p, asg):
-        return "reads-rules" if p["outcome"][0] == "reads-rules" else "returns"
+        reads = any(bb in rules_bbs for bb in p["blocks"])
+        if p["outcome"][0] == "blocked":
+            return "blocked"
+        return "not-blocked,reads-rules" if reads else "not-blocked,no-rule-read"
+
+    def passed_of(asg):
+        k = [k for k in asg["opaque"] if k.startswith("bool:passed")]
+        if k:
+            return asg["opaque"][k[0]]
+        d = asg["disc"].get("passed")
+        if d in (0, 1):
+            return bool(d)
+        return None
 
     def expected(asg):
-        r = D.rel_of(asg, "traffic", "Outbound")
-        if r is None:
+        ob = variant_is(asg, "traffic", tvars, "Outbound")
+        if ob is None:
             return None
-        return "returns" if r == "=" else "reads-rules"
-    n, ncon, mism = run_table(ctx, "C09.outbound", chk.path, cfg, paths, outcome, expected)
-    # and the returning path performs no set_result / blocked construction
-    mut = [bb for p in paths if p["outcome"][0] != "reads-rules" for bb in p["blocks"]
-           if (chk.term(bb) or {}).get("k") == "call" and callee_is(chk.term(bb), "EntryContext::set_result", "TokenResult::new_blocked_with_cause", "TokenResult::new_blocked")]
-    ok = not mism and ncon > 0 and not mut
-    ctx.instance("C09.outbound", chk.path, {"rows": n, "constrained": ncon, "mismatches": mism[:3], "result_mutated_on_outbound_path": bool(mut)},
-                 "traffic_type == Outbound -> return the unchanged result before any rule is read", ok, cfg)
-    if not ok:
-        ctx.violation("C09.outbound", "C09.outbound|early-return", "outbound entries are not exempt from system rules: %s" % (mism[:1] or ("result mutated" if mut else "test not found")),
-                      chk.loc(), config=cfg)
-    # gate inside the loop
-    start = chk.term(sorted(rules_bbs)[0])["target"]
-    w2 = D.Walker(f, chk, cls)
-    paths2 = w2.walk(start, lambda bb, env: ("blocked",) if bb in blocked_bbs else None)
-
-    def outcome2(p, asg):
-        return {"blocked": "blocked", "loop": "next-rule", "return": "pass"}.get(p["outcome"][0], p["outcome"][0])
-
-    def expected2(asg):
+        if ob:
+            return "not-blocked,no-rule-read"
         it = asg["disc"].get("iter")
         if it == 0:
-            return "pass"
-        if it != 1:
+            return "not-blocked,reads-rules"
+        if it not in (None, 1):
             return None
-        k = [k for k in asg["opaque"] if k.startswith("bool:passed")]
-        if not k:
+        if any(not v for k, v in asg["opaque"].items() if k.startswith("closure-ran:") and k.rsplit(":", 1)[-1] in ("find_map", "find", "any", "position", "try_for_each", "for_each")):
+            return "not-blocked,reads-rules"
+        pv = passed_of(asg)
+        if pv is None:
             return None
-        return "next-rule" if asg["opaque"][k[0]] else "blocked"
-    n, ncon, mism = run_table(ctx, "C09.gate", chk.path, cfg, paths2, outcome2, expected2)
+        return "not-blocked,reads-rules" if pv else "blocked"
+    n, ncon, mism = run_table(ctx, "C09.gate", chk.path, cfg, paths, outcome, expected)
+    n_out = sum(1 for a, o in [(None, None)] if False)
+    has_out = any(l for p in paths for l in p["lits"] if "traffic" in str(l))
+    has_gate = any("passed" in str(l) for p in paths for l in p["lits"])
     # after blocking, the slot returns (no further rule can overwrite the verdict)
     after = True
     for bb in blocked_bbs:
         r = chk.reachable(chk.succs(bb))
-        if any(x in r for x in rules_bbs) or any((chk.term(x) or {}).get("k") == "call" and callee_is(chk.term(x), "Iterator::next") for x in r):
+        if any(x in r for x in rules_bbs) or any((chk.term(x) or {}).get("k") == "call" and (callee_is(chk.term(x), "Iterator::next") or callee_def(chk.term(x)) == dec.path) for x in r):
             after = False
-    ok = not mism and ncon > 0 and after
+    okg = not mism and ncon >= 3 and has_gate and after
+    oko = not [m for m in mism if "no-rule-read" in str(m)] and has_out
+    ctx.instance("C09.outbound", chk.path, {"rows": n, "constrained": ncon, "mismatches": [m for m in mism if "no-rule-read" in str(m)][:3], "tests_traffic_type": has_out},
+                 "traffic_type == Outbound -> the unchanged result, before any rule is read", oko, cfg)
+    if not oko:
+        ctx.violation("C09.outbound", "C09.outbound|early-return", "outbound entries are not exempt from system rules: %s" % ([m for m in mism if "no-rule-read" in str(m)][:1] or "test not found"),
+                      chk.loc(), config=cfg)
     ctx.instance("C09.gate", chk.path, {"rows": n, "constrained": ncon, "mismatches": mism[:3], "returns_after_block": after},
-                 "per rule: Blocked iff the checker refused; exhausted -> pass; returns right after the first refusal", ok, cfg)
-    if not ok:
+                 "inbound, per rule: Blocked iff the checker refused; exhausted -> pass; returns right after the first refusal", okg, cfg)
+    if not okg and not (not oko and len(mism) == len([m for m in mism if "no-rule-read" in str(m)]) and has_gate and after and ncon >= 3):
         ctx.violation("C09.gate", "C09.gate|table", "system slot does not block exactly when a rule's metric trips: %s" % (mism[:1] or ("continues after block" if not after else "gate not found")), chk.loc(), config=cfg)
-    nb = check_block_constants(ctx, f, chk, "C09.report", cfg, "SystemFlow", ["call:Iterator::next"], ["call:" + dec.path.rsplit("::", 1)[-1]], "system")
+    # the observed value attached: whatever the decision read for the tripping metric (through the decision helper, or - in the view,
+    # where a private helper is inlined - directly from the metric sources)
+    snap = ["call:" + dec.path.rsplit("::", 1)[-1], "call:system_metric::current_load", "call:system_metric::current_cpu_usage",
+            "call:ConcurrencyStat::current_concurrency", "call:avg_rt", "call:qps"]
+    nb = check_block_constants(ctx, f, chk, "C09.report", cfg, "SystemFlow", ["call:Iterator::next", "call:get_rules"], snap, "system")
     ctx.floor("C09.report", "blocked sites in system slot", nb, 1)
